@@ -129,7 +129,9 @@ def estimateSpacing (dSorted : List Rat) : Except ErrKind (Option Rat) :=
 zero within `1e-5`, refined over the extent), index = rounded multiple of the spacing above the lowest distance, regular iff
 every multiple is within `rtol + atol/|spacing|` of its rounding, i.e. every plane within `atol + rtol·|spacing|`
 (mm) of a whole multiple of the spacing above the lowest plane (repaired behaviour, defect
-C11-gaps-tolerance-grows: the tolerance used to be relative to the multiple). -/
+C11-gaps-tolerance-grows: the tolerance used to be relative to the multiple) AND the examined (distinct) rows get pairwise distinct
+indices (repaired behaviour, defect C11-gaps-planes-share-index: two rows at one multiple — related by an in-plane translation, or
+closer together than the tolerance — are not a regularly spaced stack). -/
 def spacingMissing (d dSorted : List Rat) (hint : Option Rat) (rtol atol : Rat) :
     Except ErrKind (Option (Rat × Bool × List Int)) := do
   let sp ← (match hint with
@@ -139,7 +141,7 @@ def spacingMissing (d dSorted : List Rat) (hint : Option Rat) (rtol atol : Rat) 
   | some s, some dmin =>
     let mult := d.map fun x => (x - dmin) / s
     let rounded := mult.map roundHalfEven
-    let reg := (mult.zip rounded).all fun mr => isClose mr.1 (mr.2 : Rat) 0 (rtol + atol / rabs s)
+    let reg := ((mult.zip rounded).all fun mr => isClose mr.1 (mr.2 : Rat) 0 (rtol + atol / rabs s)) && decide rounded.Nodup
     pure (some (s, reg, rounded))
   | _, _ => pure none
 
